@@ -15,7 +15,7 @@ wt = "/tmp/wt/confirm-" + name
 
 
 def sh(cmd, **kw):
-    return subprocess.run(cmd, shell=True, stdout=subprocess.PIPE, stderr=subprocess.STDOUT, text=True, **kw)
+    return subprocess.run(cmd, shell=True, stdout=subprocess.PIPE, stderr=subprocess.STDOUT, text=True, errors="replace", **kw)
 
 
 def build_and_test():
@@ -34,7 +34,7 @@ def demo():
         return None, "rust demo: run manually"
     cc = "g++ -std=gnu++17" if d.endswith("pp") else "gcc"
     extra = ""
-    top = open(d).read(3000)
+    top = open(d, errors="replace").read(3000)
     if "fsanitize" in top:
         extra = "-fsanitize=address,undefined -fno-sanitize-recover=all"
     r = sh("%s -w -g -O1 %s -I%s/include -I%s/_build -DA_HAVE_H='\"a.cmake.h\"' -DA_EXPORTS %s %s/src/*.c -lm -o %s" % (cc, extra, wt, wt, d, wt, exe))
@@ -80,7 +80,7 @@ for f in os.listdir(src):
     if f.startswith(("patch.diff", "demo.", "README")):
         shutil.copy(os.path.join(src, f), dst)
 try:
-    meta["needs"] = open(os.path.join(src, "README.txt")).read()[:1500]
+    meta["needs"] = open(os.path.join(src, "README.txt"), errors="replace").read()[:1500]
 except OSError:
     pass
 json.dump(meta, open(os.path.join(dst, "meta.json"), "w"), indent=1)
